@@ -44,7 +44,7 @@ ASSUMPTIONS = {
 TIERS = {
     "C13": {
         "quick": {"runs": 420, "chunk": 4, "per_run_timeout": 600, "wall_cap": 400, "minimise_budget": 300},
-        "thorough": {"runs": 9000, "chunk": 6, "per_run_timeout": 900, "wall_cap": 3000, "minimise_budget": 600},
+        "thorough": {"runs": 9000, "chunk": 6, "per_run_timeout": 900, "wall_cap": 2400, "minimise_budget": 600},
     }
 }
 
